@@ -169,4 +169,5 @@ package fragmentation
 //@ func (*Fragmentation).Process props C08 C07
 //@   requires fOK(f)
 //@   ensures implies(!result2, result1.size == 0 && len(result1.views) == 0)
-//@   modifies everything()
+// (reassembly never writes packet bytes: it keeps and re-slices the views it was given)
+//@   modifies everything_but(uint8)
